@@ -221,7 +221,8 @@ def build_fn(unit, file_spec, item_spec, opts, sections, log, probes=False):
                 # a sub only makes a construct ingestible; if the construct is gone and Verus still ingests the
                 # function, nothing is lost for the proof
                 info.lost_subs.append("sub `%s` matched nothing" % m.group(1))
-                if _count_asserts(m.group(2)):
+                # (the replacement is written with `\n` escapes: expand them, or a `//` comment in it would mask the asserts after it)
+                if _count_asserts(m.group(2).replace("\\n", "\n")):
                     # ... unless the replacement carries an obligation of the contract
                     info.lost.append("sub `%s` matched nothing" % m.group(1))
                     info.lost_obligations.append("the assert(s) carried by sub `%s`" % m.group(1))
